@@ -162,7 +162,9 @@ pub fn cb_hash(a: u32) -> i64 {
   val_of(a)
 }
 
-pub trait El: Sized + Clone + PartialEq + PartialOrd + Ord + core::hash::Hash + 'static {
+pub trait El:
+  Sized + Clone + PartialEq + PartialOrd + Ord + core::hash::Hash + serde::Serialize + serde::de::DeserializeOwned + 'static
+{
   const NAME: &'static str;
   const DROPS: bool;
   fn mk(id: u32) -> Self;
